@@ -22,6 +22,7 @@ import GoSquare.Properties.C19
 import GoSquare.Properties.C20
 import GoSquare.Proofs.DecLocal
 import GoSquare.Proofs.HeapRefine
+import GoSquare.Properties.C19Json
 #print axioms GoSquare.C01.build_then_construct
 #print axioms GoSquare.C01.kept_export_eq
 #print axioms GoSquare.C01.replay_normals
@@ -236,6 +237,13 @@ import GoSquare.Proofs.HeapRefine
 #print axioms GoSquare.C19.indexWrapper_is_not_blobTx
 #print axioms GoSquare.Proto.parseFields_enc
 #print axioms GoSquare.readUvarint_uvarint
+#print axioms GoSquare.C19.base64_roundtrip
+#print axioms GoSquare.C19.json_roundtrips
+#print axioms GoSquare.C19.json_blob_accepted
+#print axioms GoSquare.JsonProofs.blobProto_json_roundtrip
+#print axioms GoSquare.JsonProofs.b64Encode_injective
+#print axioms GoSquare.JsonProofs.unmarshalNs_ok
+#print axioms GoSquare.JsonProofs.unmarshalShare_ok
 #print axioms GoSquare.C20.lookup_returns_the_run
 #print axioms GoSquare.C20.sorted_decomposition
 #print axioms GoSquare.C20.lookup_on_sorted
